@@ -91,6 +91,20 @@ func (c *Cell) String() string {
 	return "<NULL>"
 }
 
+// identityString returns a string that is the same for equal values: unlike
+// String, it does not depend on the zone a time anchor is written in.
+func identityString(c *Cell) string {
+	if c.T != nil {
+		return c.T.UTC().Format(time.RFC3339Nano)
+	}
+	if c.P != nil {
+		if ta, err := c.P.TimeAnchor(); err == nil {
+			return fmt.Sprintf("%q@[%s]", c.P.ID(), ta.UTC().Format(time.RFC3339Nano))
+		}
+	}
+	return c.String()
+}
+
 // Row represents a collection of cells.
 type Row map[string]*Cell
 
@@ -729,6 +743,9 @@ type countDistinctAcc struct {
 // Accumulate takes the given value and accumulates it to the current state.
 func (c *countDistinctAcc) Accumulate(v interface{}) (interface{}, error) {
 	vs := fmt.Sprintf("%v", v)
+	if cell, ok := v.(*Cell); ok && cell != nil {
+		vs = identityString(cell)
+	}
 	c.state[vs]++
 	return int64(len(c.state)), nil
 }
@@ -935,7 +952,7 @@ func (t *Table) Reduce(cfg SortConfig, aaps []AliasAccPair) error {
 	id := func(r Row) string {
 		res := bytes.NewBufferString("")
 		for _, c := range cfg {
-			res.WriteString(r[c.Binding].String())
+			res.WriteString(identityString(r[c.Binding]))
 			res.WriteString(";")
 		}
 		return res.String()
